@@ -1,4 +1,5 @@
 (* C16 - no lexical rule can backtrack exponentially. *)
+From SqlModel.Gen Require LexPins.   (* the scan loop, is_keyword, consume and the class-level state of sqlparse/lexer.py have the pinned shape *)
 From SqlModel Require Import Base Re Lexer Ambig AmbigFacts.
 From SqlModel.Gen Require Import Atoms CaseTabs Rules.
 From SqlModel.Inst Require Import Cur C16.
